@@ -27,6 +27,16 @@ impl<T> FeeParams<T> {
         &self.fee_receiver_factor
     }
 
+    /// The `(positive impact, negative impact)` fee factors, for the solver-based checks in
+    /// `/verif` (`--cfg gmsol_verif`).
+    #[cfg(gmsol_verif)]
+    pub fn verif_impact_fee_factors(&self) -> (&T, &T) {
+        (
+            &self.positive_impact_fee_factor,
+            &self.negative_impact_fee_factor,
+        )
+    }
+
     #[inline]
     fn factor(&self, balance_change: BalanceChange) -> &T {
         match balance_change {
@@ -434,6 +444,13 @@ impl<T> LiquidationFeeParams<T> {
             fee_amount,
             fee_amount_for_receiver,
         })
+    }
+
+    /// The `(factor, receiver_factor)` pair, for the solver-based checks in `/verif`
+    /// (`--cfg gmsol_verif`).
+    #[cfg(gmsol_verif)]
+    pub fn verif_factors(&self) -> (&T, &T) {
+        (&self.factor, &self.receiver_factor)
     }
 
     /// Public entry to the crate-private [`fee`](Self::fee), used only by the solver-based
